@@ -214,7 +214,7 @@ Qed.
 Lemma wf_cat_text_ok i : PC.wf_cat i -> cat_text_ok i.
 Proof.
   intros W. split; [apply (PC.wf_meta i W)|]. split; [apply (PC.wf_alts i W)|]. split; [apply (PC.wf_cats i W)|].
-  now apply PC.wf_ballots_nonempty.
+  now apply PC.wf_ballots_nonempty, PC.wf_cat_weaken.
 Qed.
 
 Lemma cat_canonical i : PC.wf_cat i ->
